@@ -447,6 +447,10 @@ pub struct Node {
 	pub inherited_terminal: Vec<([u8; 32], bool)>,
 	/// events offered to this node's handler so far (seed of the replay-request fault)
 	pub event_seq: u64,
+	/// step of the node's last chain sync, and whether some reorganisation found it with chain
+	/// data processed after its last poll of pending (monitor) events
+	pub last_sync_step: u64,
+	pub unpolled_at_reorg: bool,
 	/// channels this node reported closed (any reason) in this / in an earlier incarnation
 	pub closed_this_incarnation: BTreeSet<usize>,
 	pub closed_in_earlier_incarnation: BTreeSet<usize>,
@@ -753,6 +757,8 @@ impl World {
 				ever_outdated_chans: BTreeSet::new(),
 				inherited_terminal: Vec::new(),
 				event_seq: 0,
+				last_sync_step: 0,
+				unpolled_at_reorg: false,
 				closed_this_incarnation: BTreeSet::new(),
 				closed_in_earlier_incarnation: BTreeSet::new(),
 				loaded_gens: Vec::new(),
@@ -2517,6 +2523,7 @@ impl World {
 		let res = catch(|| crate::chainstyle::drive(&self.chain, &tgt, &mut view, &mut height, style, &mut counters));
 		self.nodes[n].view = view;
 		self.nodes[n].synced_height = height;
+		self.nodes[n].last_sync_step = self.step;
 		for c in counters {
 			self.out.bump(&c);
 		}
